@@ -3,9 +3,10 @@ from __future__ import annotations
 
 import ast
 
+from .. import shape
 from ..flow import call_name, dotted, norm
 from ..index import AnalysisError, walk_local
-from ..lib import cfg_of, defs_of, edge_leads_only_to_raise, live, nodes_with, return_nodes, undominated, witness
+from ..lib import cfg_of, defs_of, edge_leads_only_to_raise, find, has, live, nodes_with, return_nodes, undominated, witness
 from ..tags import Tagger
 
 PQ = "pint.facets.plain.quantity"
@@ -25,6 +26,85 @@ EXPLANATION = (
 EXPLANATION += ' Also decided (rules added after the second round of seeded changes): the predicate that selects the bare-magnitude hash is `dimensionless` of the base form (what __eq__ uses against numbers); the per-object dimensionality memo read by __eq__/compare is validated against the units; no comparison calls an in-place conversion primitive.'
 
 
+# ---------------------------------------------------------------- role-based helpers (also used by C06)
+def atom_is(fn, *patterns):
+    """Predicate on a positive atom of a condition (as produced by shape.atoms / conjuncts / facts_at): the atom - as
+    written, or with the local temporaries of `fn` replaced by their definitions - matches one of the patterns
+    (shape.match syntax: `_X` wildcards)."""
+    def pred(a):
+        forms = [a]
+        try:
+            forms.append(shape.resolve(a, fn))
+        except RecursionError:
+            pass
+        return any(shape.match(p, f) is not None for p in patterns for f in forms)
+    return pred
+
+
+def _expanded(facts, fn, depth=3):
+    """(atom, truth) pairs with hoisted conditions (`c = a and b` ... `if c:`) expanded into what they imply."""
+    out = []
+
+    def add(a, t, d):
+        out.append((a, t))
+        if isinstance(a, ast.Name) and d > 0:
+            v = shape.unalias(a, fn)
+            if v is not a:
+                for a2, t2 in shape.conjuncts(v, "t" if t else "f"):
+                    add(a2, t2, d - 1)
+    for a, t in facts:
+        add(a, t, depth)
+    return out
+
+
+def facts(node, fn):
+    """What is known wherever `node` executes (shape.facts_at), hoisted conditions expanded."""
+    return _expanded(shape.facts_at(node, fn), fn)
+
+
+def known(node, fn, pred, truth=True):
+    return any(t == truth and pred(a) for a, t in facts(node, fn))
+
+
+def edges_where(cfg, fn, pred, want=True):
+    """CFG edges (test id, label) on which an atom satisfying `pred` is known to be `want`, whatever the spelling of
+    the test (negation, `!=`/`is not`, conjunctions, hoisted conditions)."""
+    out = []
+    for n in cfg.nodes:
+        if n.kind != "test" or n.ast is None:
+            continue
+        for lab in ("t", "f"):
+            if any(t == want and pred(a) for a, t in _expanded(shape.conjuncts(n.ast, lab), fn)):
+                out.append((n.id, lab))
+    return out
+
+
+def refused(ck, fi, cfg, pred, want, rule, key, ok_msg, bad_msg, gone_msg=None, fn=None):
+    """Wherever an atom satisfying `pred` is known to be `want` only a raise is reachable; the atom must be tested at
+    least once (otherwise the refusal is gone: violation).  Returns the edges."""
+    es = edges_where(cfg, fn or fi.node, pred, want)
+    if not es:
+        ck.fail(rule, key, fi.loc(), gone_msg or bad_msg)
+    for (t, lab) in es:
+        p = edge_leads_only_to_raise(cfg, t, lab)
+        ck.check(p is None, rule, key, fi.loc(cfg.nodes[t].ast), ok_msg, bad_msg, witness(cfg, p))
+    return es
+
+
+def calls_matching(node, *patterns):
+    """Call nodes below `node` (a def or a lambda) that match one of the patterns."""
+    return [c for c in ast.walk(node) if isinstance(c, ast.Call) and any(shape.match(p, c) is not None for p in patterns)]
+
+
+def stmt_of(node):
+    while node is not None and not isinstance(node, ast.stmt):
+        node = getattr(node, "_parent", None)
+    return node
+
+
+MAG = ("magnitude", "_magnitude", "m")
+
+
 def run(ck, ix, tier):
     ck.rule("G-TAG", "abstract interpretation over the unit-tag domain")
     obl = 0
@@ -39,119 +119,72 @@ def run(ck, ix, tier):
     # ------------------------------------------------------------ __eq__ structure
     eq_zero_rule(ck, ix)
     fi = ix.func(PQ, "PlainQuantity.__eq__")
-    cfg = cfg_of(fi)
     # DimensionalityError -> False
     trys = [t for t in walk_local(fi.node) if isinstance(t, ast.Try) and any(h.type is not None and "DimensionalityError" in norm(h.type) for h in t.handlers)]
     ck.check(bool(trys), "G-ERR", "PlainQuantity.__eq__|incompatible-units-compare-unequal", fi.loc(), "conversion failure handled", "__eq__ no longer handles DimensionalityError from the conversion")
     for t in trys:
         for h in t.handlers:
             rets = [r for r in ast.walk(h) if isinstance(r, ast.Return)]
-            ck.check(bool(rets) and all("False" in norm(r) for r in rets), "G-ERR", "PlainQuantity.__eq__|different-dimension-returns-False", fi.loc(h),
+            ck.check(bool(rets) and all(r.value is not None and "False" in shape.rnorm(r.value, fi.node) for r in rets), "G-ERR", "PlainQuantity.__eq__|different-dimension-returns-False", fi.loc(h),
                      "different dimensions compare unequal", "a DimensionalityError in __eq__ does not result in False")
-    # not-a-quantity, not zero, not dimensionless -> False
+    # __ne__ is the negation of __eq__ (element-wise for arrays)
     fi_ne = ix.func(PQ, "PlainQuantity.__ne__")
     ck.analysed(fi_ne)
-    src = norm(fi_ne.node)
-    from .. import shape as _sh5
-    rets_ = [_sh5.rnorm(r.value, fi_ne.node) for r in _sh5.returns_of(fi_ne.node)]
+    rets_ = [shape.rnorm(r.value, fi_ne.node) for r in shape.returns_of(fi_ne.node)]
     ck.check(sorted(rets_) == ["not self.__eq__(other)", "np.logical_not(self.__eq__(other))"], "G-TWIN", "PlainQuantity.__ne__|negation-of-eq", fi_ne.loc(), "__ne__ negates __eq__", "__ne__ is no longer the negation of __eq__")
 
     # ------------------------------------------------------------ compare: order of checks
     fi = ix.func(PQ, "PlainQuantity.compare")
-    cfg = cfg_of(fi)
-    reg = [n.id for n in cfg.nodes if n.kind == "test" and "_REGISTRY" in norm(n.ast) and ("is not" in norm(n.ast) or "is " in norm(n.ast))]
-    ck.check(bool(reg), "G-DOM", "PlainQuantity.compare|registry-identity-tested", fi.loc(), "registry identity is tested", "compare no longer tests that both quantities belong to the same registry")
-    reads = nodes_with(cfg, lambda x: isinstance(x, ast.Attribute) and x.attr in ("_magnitude", "magnitude", "_units") and dotted(x.value) == "other")
-    reads += nodes_with(cfg, lambda x: isinstance(x, ast.Call) and call_name(x) == "to_root_units" and dotted(x.func.value) == "other")
-    for r in live(cfg, sorted(set(reads))):
-        if r in reg:
+    fn, cfg = fi.node, cfg_of(fi)
+    same_reg = atom_is(fn, "self._REGISTRY is other._REGISTRY", "other._REGISTRY is self._REGISTRY")
+    ck.check(bool(edges_where(cfg, fn, same_reg, False)), "G-DOM", "PlainQuantity.compare|registry-identity-tested", fi.loc(), "registry identity is tested", "compare no longer tests that both quantities belong to the same registry")
+    # every read of the other quantity's magnitude / units happens where the registries are known to be identical
+    reads = [x for x in walk_local(fn) if (isinstance(x, ast.Attribute) and x.attr in ("_magnitude", "magnitude", "m", "_units", "units") and dotted(x.value) == "other")
+             or (isinstance(x, ast.Call) and call_name(x) in ("to_root_units", "to_base_units") and isinstance(x.func, ast.Attribute) and dotted(x.func.value) == "other")]
+    ck.floor("G-DOM", len(reads), 2, "reads of the other quantity's magnitude/units in compare")
+    for x in reads:
+        if shape.dead(x, fn):
             continue
-        p = undominated(cfg, [r], reg)
-        ck.check(p is None, "G-DOM", f"PlainQuantity.compare|registry-check-before-reading-other|{cfg.nodes[r].text()[:50]}", fi.loc(cfg.nodes[r].ast),
+        st = stmt_of(x)
+        text = norm(st.test if isinstance(st, (ast.If, ast.While)) else st).splitlines()[0] if st is not None else norm(x)
+        ck.check(known(x, fn, same_reg, True), "G-DOM", f"PlainQuantity.compare|registry-check-before-reading-other|{text[:50]}", fi.loc(x),
                  "other's magnitude/units are only read after the registry identity test",
-                 f"`{cfg.nodes[r].text()}` reads the other quantity before the registry identity test: quantities of different registries compare silently", witness(cfg, p))
-    for g in reg:
-        lab = "t" if "is not" in norm(cfg.nodes[g].ast) else "f"
-        p = edge_leads_only_to_raise(cfg, g, lab)
-        ck.check(p is None, "G-DOM", "PlainQuantity.compare|different-registries-raise", fi.loc(cfg.nodes[g].ast), "different registries raise ValueError", "different registries do not raise", witness(cfg, p))
-    dim = [n.id for n in cfg.nodes if n.kind == "test" and "self.dimensionality" in norm(n.ast) and "other.dimensionality" in norm(n.ast)]
-    for g in dim:
-        p = edge_leads_only_to_raise(cfg, g, "t" if "!=" in norm(cfg.nodes[g].ast) else "f")
-        ck.check(p is None, "G-DOM", "PlainQuantity.compare|different-dimensions-raise", fi.loc(cfg.nodes[g].ast), "ordering across dimensions raises DimensionalityError", "ordering across dimensions does not raise", witness(cfg, p))
-    ck.check(bool(dim), "G-DOM", "PlainQuantity.compare|dimensionality-tested", fi.loc(), "dimensionality tested before ordering", "compare no longer tests dimensionality before ordering through root units")
-    # ordering through conversions that keep the offset: to_root_units on both (not a bare factor)
-    fin = [r for r in walk_local(fi.node) if isinstance(r, ast.Return) and "to_root_units" in norm(r)]
-    ck.check(any(norm(r.value) == "op(self.to_root_units().magnitude, other.to_root_units().magnitude)" or
-                 (norm(r.value).count("to_root_units()") == 2 and norm(r.value).startswith("op(")) for r in fin),
-             "G-TAG", "PlainQuantity.compare|both-operands-converted-to-root-units", fi.loc(), "both operands are converted to root units as quantities (offsets included)",
+                 f"`{text}` reads the other quantity before the registry identity test: quantities of different registries compare silently")
+    refused(ck, fi, cfg, same_reg, False, "G-DOM", "PlainQuantity.compare|different-registries-raise", "different registries raise ValueError", "different registries do not raise",
+            "compare no longer tests that both quantities belong to the same registry")
+    same_dim = ("self.dimensionality == other.dimensionality", "other.dimensionality == self.dimensionality")
+    refused(ck, fi, cfg, atom_is(fn, *same_dim), False, "G-DOM", "PlainQuantity.compare|different-dimensions-raise", "ordering across dimensions raises DimensionalityError", "ordering across dimensions does not raise",
+            "compare no longer tests dimensionality before ordering through root units")
+    # ordering through conversions that keep the offset: to_root_units on both (not a bare factor), where the dimensionalities are known to be equal
+    fin = [hit for a in MAG for b in MAG for hit in find(ix, fi, f"op(self.to_root_units().{a}, other.to_root_units().{b})")]
+    ck.check(bool(fin), "G-TAG", "PlainQuantity.compare|both-operands-converted-to-root-units", fi.loc(), "both operands are converted to root units as quantities (offsets included)",
              "compare no longer orders by the root-unit magnitudes of both operands")
-    ci = ix.cls(PQ, "PlainQuantity")
-    for nm, op in (("__lt__", "operator.lt"), ("__le__", "operator.le"), ("__ge__", "operator.ge"), ("__gt__", "operator.gt")):
-        m = ci.methods.get(nm)
-        src = norm(m.node) if m is not None else ""
-        ck.check(f"self.compare(other, op={op})" in src, "G-TABLE", f"PlainQuantity.{nm}|uses-{op}", m.loc() if m else PQ, f"{nm} -> compare(other, {op})", f"{nm} does not call compare with {op}")
-    cu = ix.cls(PU, "PlainUnit")
-    for nm, op in (("__lt__", "operator.lt"), ("__le__", "operator.le"), ("__ge__", "operator.ge"), ("__gt__", "operator.gt")):
-        m = cu.methods.get(nm)
-        src = norm(m.node) if m is not None else ""
-        ck.check(f"self.compare(other, op={op})" in src, "G-TABLE", f"PlainUnit.{nm}|uses-{op}", m.loc() if m else PU, f"{nm} -> compare(other, {op})", f"Unit.{nm} does not call compare with {op}")
+    for node, _b, fn2 in fin:
+        ck.check(known(node, fn2, atom_is(fn2, *same_dim), True), "G-DOM", "PlainQuantity.compare|dimensionality-tested", fi.loc(node), "dimensionality tested before ordering",
+                 "compare orders through root units without having tested that the dimensionalities are equal")
+    for cls_mod, cls_name, label in ((PQ, "PlainQuantity", ""), (PU, "PlainUnit", "Unit.")):
+        ci = ix.cls(cls_mod, cls_name)
+        for nm, op in (("__lt__", "operator.lt"), ("__le__", "operator.le"), ("__ge__", "operator.ge"), ("__gt__", "operator.gt")):
+            m = ci.methods.get(nm)
+            okc = m is not None and bool(calls_matching(m.node, f"self.compare(other, op={op})", f"self.compare(other, {op})"))
+            ck.check(okc, "G-TABLE", f"{cls_name}.{nm}|uses-{op}", m.loc() if m else cls_mod, f"{nm} -> compare(other, {op})", f"{label}{nm} does not call compare with {op}")
     fu = ix.func(PU, "PlainUnit.compare")
     ck.analysed(fu)
-    src = norm(fu.node)
-    rets_ = sorted(_sh5.rnorm(r.value, fu.node) for r in _sh5.returns_of(fu.node))
+    rets_ = sorted(shape.rnorm(r.value, fu.node) for r in shape.returns_of(fu.node))
     rets_ = [r for r in rets_ if r != "NotImplemented"]
     ck.check(rets_ == ["self._REGISTRY.Quantity(1, self).compare(other, op)", "self._REGISTRY.Quantity(1, self).compare(self._REGISTRY.Quantity(1, other), op)"], "G-TWIN",
              "PlainUnit.compare|via-unit-quantities", fu.loc(), "units are ordered as 1*unit quantities", "Unit.compare no longer compares 1*self with 1*other")
 
     # ------------------------------------------------------------ hash granularity
-    fi = ix.func(PQ, "PlainQuantity.__hash__")
-    ck.analysed(fi)
-    defs = defs_of(fi)
-    base = [nm for nm, ds in defs.defs.items() if any(v is not None and norm(v) == "self.to_base_units()" for v, k, s in ds)]
-    ck.check(len(base) == 1, "G-PROV", "PlainQuantity.__hash__|via-base-units", fi.loc(), "hash computed from the base-unit form", "__hash__ no longer converts to base units first")
-    if base:
-        b = base[0]
-        for h in [c for c in walk_local(fi.node) if isinstance(c, ast.Call) and isinstance(c.func, ast.Name) and c.func.id == "hash"]:
-            comps = h.args[0].elts if isinstance(h.args[0], ast.Tuple) else [h.args[0]]
-            for c in comps:
-                s = norm(_sh5.unalias(c, fi.node))      # `m = base.magnitude` hoisted
-                allowed = s in (f"{b}.magnitude", f"{b}._magnitude", f"{b}.m", f"{b}.__class__", f"{b}.dimensionality", "self.dimensionality", f"type({b})", "self.__class__")
-                ck.check(allowed, "G-PROV", f"PlainQuantity.__hash__|hash-granularity|{s}", fi.loc(h),
-                         f"`{s}` is a function of (base magnitude, dimensionality, class)",
-                         f"__hash__ hashes `{s}`: equal quantities can differ in it (units that still distinguish dimensionless base units, or a magnitude not converted to base units)")
-        # every hash() call must use the converted object, and the dimensionless shortcut must come after the conversion
-        cfg = cfg_of(fi)
-        conv = nodes_with(cfg, lambda x: isinstance(x, ast.Call) and call_name(x) == "to_base_units")
-        hs = nodes_with(cfg, lambda x: isinstance(x, ast.Call) and isinstance(x.func, ast.Name) and x.func.id == "hash")
-        for hn in live(cfg, hs):
-            p = undominated(cfg, [hn], conv)
-            ck.check(p is None, "G-PROV", "PlainQuantity.__hash__|magnitude-converted-before-hashing", fi.loc(cfg.nodes[hn].ast), "hash only after to_base_units",
-                     "a hash is computed on a path that skips to_base_units (equal dimensionless quantities in scaled units would hash differently)", witness(cfg, p))
-        # the branch that hashes the bare magnitude (so that q == 3 implies hash(q) == hash(3)) must be taken exactly when
-        # __eq__ compares with bare numbers, i.e. for every *dimensionless* quantity (radian, count, ... included), and
-        # every other quantity must hash what __eq__ compares (dimensionality, not the units)
-        from .. import shape
-        dimless = lambda a: norm(a) in (f"{b}.dimensionless", "self.dimensionless")
-        for tst in [n for n in cfg.nodes if n.kind == "test"]:
-            pos = [norm(a) for a, _ in shape.atoms(tst.ast)]
-            ck.check(all(p in (f"{b}.dimensionless", "self.dimensionless") for p in pos), "G-PROV", "PlainQuantity.__hash__|dimensionless-shortcut-on-base-form", fi.loc(tst.ast), "bare-magnitude hash for every dimensionless quantity",
-                     f"`{norm(tst.ast)}` selects the hash granularity: the bare-magnitude hash must be taken exactly for dimensionless quantities (the predicate __eq__ uses for bare numbers); 1 radian == 1 but would hash differently")
-        for h in [c for c in walk_local(fi.node) if isinstance(c, ast.Call) and isinstance(c.func, ast.Name) and c.func.id == "hash"]:
-            bare = not isinstance(h.args[0], ast.Tuple)
-            ck.check(shape.holds_at(h, fi.node, dimless, bare), "G-PROV", f"PlainQuantity.__hash__|{'bare' if bare else 'tuple'}-hash-on-the-right-side", fi.loc(h),
-                     "bare magnitude hashed for dimensionless quantities, (class, magnitude, dimensionality) otherwise",
-                     f"`{norm(h)}` is computed on the wrong side of the dimensionless test")
+    hash_rules(ck, ix)
     fh = ix.func(PU, "PlainUnit.__hash__")
-    ck.check("self._units.__hash__()" in norm(fh.node) or "hash(self._units)" in norm(fh.node), "G-PROV", "PlainUnit.__hash__|container-hash", fh.loc(), "unit hash = container hash", "PlainUnit.__hash__ is no longer the container hash")
+    ck.check(has(ix, fh, "self._units.__hash__()") or has(ix, fh, "hash(self._units)"), "G-PROV", "PlainUnit.__hash__|container-hash", fh.loc(), "unit hash = container hash", "PlainUnit.__hash__ is no longer the container hash")
 
     # ------------------------------------------------------------ __bool__ and helpers
     fb = ix.func(PQ, "PlainQuantity.__bool__")
-    cfgb = cfg_of(fb)
-    g = [n.id for n in cfgb.nodes if n.kind == "test" and norm(n.ast) == "self._is_multiplicative"]
-    ck.check(bool(g) and all(edge_leads_only_to_raise(cfgb, x, "f") is None for x in g), "G-DOM", "PlainQuantity.__bool__|offset-units-raise", fb.loc(), "truth value of offset quantities raises", "bool() of an offset quantity no longer raises")
+    refused(ck, fb, cfg_of(fb), atom_is(fb.node, "self._is_multiplicative"), False, "G-DOM", "PlainQuantity.__bool__|offset-units-raise", "truth value of offset quantities raises", "bool() of an offset quantity no longer raises")
     fe = ix.func("pint.compat", "eq")
     ck.analysed(fe)
-    src = norm(fe.node)
     cm = ix.module("pint.compat")
 
     def reductions(fn):
@@ -173,7 +206,7 @@ def run(ck, ix, tier):
     ck.check(has_eq and "all" in red and "any" not in red, "G-PROV", "compat.eq|elementwise-then-all", fe.loc(), "== then all() when check_all", f"compat.eq must compare with == and reduce with all() under check_all (reductions found: {red})")
     fz = ix.func("pint.compat", "zero_or_nan")
     red = reductions(fz)
-    summ = any(isinstance(b2, ast.BinOp) and isinstance(b2.op, (ast.Add, ast.BitOr)) and sorted([norm(b2.left), norm(b2.right)]) == ["eq(obj, 0, False)", "isnan(obj, False)"] for b2 in walk_local(fz.node))
+    summ = any(isinstance(b2, ast.BinOp) and isinstance(b2.op, (ast.Add, ast.BitOr)) and sorted([shape.rnorm(b2.left, fz.node), shape.rnorm(b2.right, fz.node)]) == ["eq(obj, 0, False)", "isnan(obj, False)"] for b2 in walk_local(fz.node))
     ck.check(summ and "all" in red and "any" not in red, "G-PROV", "compat.zero_or_nan|zero-or-nan-all", fz.loc(), "(== 0) | isnan, reduced with all()", f"compat.zero_or_nan is no longer (obj == 0) + isnan(obj) reduced with all() (reductions found: {red})")
     from .. import memo as _memo
     _memo.rule_quantity_dimensionality_memo(ck, ix)  # __eq__/compare read Quantity.dimensionality
@@ -182,25 +215,74 @@ def run(ck, ix, tier):
     return EXPLANATION
 
 
+def hash_rules(ck, ix):
+    """__hash__ hashes functions of (base-unit magnitude, dimensionality, class) only, and the bare magnitude exactly for
+    dimensionless quantities.  Everything is decided on expressions with the local temporaries resolved, so the name
+    (or the existence) of the variable holding `self.to_base_units()` does not matter."""
+    fi = ix.func(PQ, "PlainQuantity.__hash__")
+    ck.analysed(fi)
+    fn, cfg = fi.node, cfg_of(fi)
+    BASE = "self.to_base_units()"
+    ck.check(has(ix, fi, BASE), "G-PROV", "PlainQuantity.__hash__|via-base-units", fi.loc(), "hash computed from the base-unit form", "__hash__ no longer converts to base units first")
+    allowed = {f"{BASE}.{a}" for a in MAG} | {f"{BASE}.__class__", f"type({BASE})", f"{BASE}.dimensionality", "self.dimensionality", "self.__class__", "type(self)"}
+    hashes = [c for c in walk_local(fn) if isinstance(c, ast.Call) and isinstance(c.func, ast.Name) and c.func.id == "hash" and len(c.args) == 1 and not shape.dead(c, fn)]
+    ck.floor("G-PROV", len(hashes), 1, "hash() calls in PlainQuantity.__hash__")
+    dimless = lambda a: shape.rnorm(a, fn) in (f"{BASE}.dimensionless", "self.dimensionless")
+    for h in hashes:
+        arg = shape.unalias(h.args[0], fn)          # a hoisted tuple
+        bare = not isinstance(arg, ast.Tuple)
+        for c in (arg.elts if not bare else [arg]):
+            s = shape.rnorm(c, fn)
+            ck.check(s in allowed, "G-PROV", f"PlainQuantity.__hash__|hash-granularity|{s}", fi.loc(h),
+                     f"`{s}` is a function of (base magnitude, dimensionality, class)",
+                     f"__hash__ hashes `{s}`: equal quantities can differ in it (units that still distinguish dimensionless base units, or a magnitude not converted to base units)")
+        # the branch that hashes the bare magnitude (so that q == 3 implies hash(q) == hash(3)) must be taken exactly when
+        # __eq__ compares with bare numbers, i.e. for every *dimensionless* quantity (radian, count, ... included), and
+        # every other quantity must hash what __eq__ compares (dimensionality, not the units)
+        ck.check(known(h, fn, dimless, bare), "G-PROV", f"PlainQuantity.__hash__|{'bare' if bare else 'tuple'}-hash-on-the-right-side", fi.loc(h),
+                 "bare magnitude hashed for dimensionless quantities, (class, magnitude, dimensionality) otherwise",
+                 f"`{norm(h)}` is computed on the wrong side of the dimensionless test")
+    # every hash() call must use the converted object, and the dimensionless shortcut must come after the conversion
+    conv = nodes_with(cfg, lambda x: isinstance(x, ast.Call) and call_name(x) == "to_base_units")
+    hs = nodes_with(cfg, lambda x: isinstance(x, ast.Call) and isinstance(x.func, ast.Name) and x.func.id == "hash")
+    for hn in live(cfg, hs):
+        p = undominated(cfg, [hn], conv)
+        ck.check(p is None, "G-PROV", "PlainQuantity.__hash__|magnitude-converted-before-hashing", fi.loc(cfg.nodes[hn].ast), "hash only after to_base_units",
+                 "a hash is computed on a path that skips to_base_units (equal dimensionless quantities in scaled units would hash differently)", witness(cfg, p))
+    # nothing but the dimensionless predicate of the base form selects the hash granularity
+    for tst in [n for n in cfg.nodes if n.kind == "test"]:
+        ats = [a for lab in ("t", "f") for a, _ in _expanded(shape.conjuncts(tst.ast, lab), fn) if not isinstance(a, (ast.Name, ast.BoolOp))]
+        ck.check(bool(ats) and all(dimless(a) for a in ats), "G-PROV", "PlainQuantity.__hash__|dimensionless-shortcut-on-base-form", fi.loc(tst.ast), "bare-magnitude hash for every dimensionless quantity",
+                 f"`{shape.rnorm(tst.ast, fn)}` selects the hash granularity: the bare-magnitude hash must be taken exactly for dimensionless quantities (the predicate __eq__ uses for bare numbers); 1 radian == 1 but would hash differently")
+
+
 def eq_zero_rule(ck, ix):
-    """The both-zero shortcut of __eq__ must carry both multiplicativity conjuncts (D4); G-TAG zero test."""
+    """The both-zero shortcut of __eq__: wherever a magnitude is known to be zero *instead of* being compared, both
+    quantities are known to be multiplicative (D4: 0 degC is not 0 kelvin) and the answer is the dimensionality
+    comparison.  Decided on the facts that hold at each statement, so the spelling of the condition (one `if`, nested
+    `if`s, guard clauses, a hoisted conjunction) does not matter."""
     fi = ix.func(PQ, "PlainQuantity.__eq__")
     ck.analysed(fi)
-    cfg = cfg_of(fi)
+    fn = fi.node
     t0 = Tagger(ck, fi, "G-TAG")
     t0.run()
-    # the both-zero shortcut must carry both multiplicativity conjuncts (D4) - explicit rule in addition to G-TAG
-    from .. import shape
-    for t in [n for n in cfg.nodes if n.kind == "test" and "eq(self._magnitude, 0, True)" in norm(n.ast)]:
-        s = shape.rnorm(t.ast, fi.node)
-        ck.check("self._is_multiplicative" in s and "other._is_multiplicative" in s, "G-TAG", "PlainQuantity.__eq__|both-zero-shortcut-requires-multiplicative", fi.loc(t.ast),
+    is_zero = atom_is(fn, *[f"eq(_Q.{a}, 0, True)" for a in MAG])
+    n_tests = len([c for a in MAG for c in calls_matching(fn, f"eq(_Q.{a}, 0, True)") if not shape.dead(c, fn)])
+    ck.floor("G-TAG", n_tests, 1, "zero tests on a quantity's magnitude in PlainQuantity.__eq__ (the both-zero shortcut)")
+    n = 0
+    for st in walk_local(fn):
+        if not isinstance(st, (ast.Return, ast.Raise, ast.Assign, ast.AugAssign, ast.AnnAssign, ast.Expr)) or shape.dead(st, fn):
+            continue
+        if not known(st, fn, is_zero, True):
+            continue
+        n += 1
+        okm = all(known(st, fn, atom_is(fn, f"{w}._is_multiplicative"), True) for w in ("self", "other"))
+        ck.check(okm, "G-TAG", "PlainQuantity.__eq__|both-zero-shortcut-requires-multiplicative", fi.loc(st),
                  "the both-zero shortcut only applies when both quantities are multiplicative",
                  "the both-zero shortcut answers by dimensionality although an operand may carry an offset/log unit (0 degC == 0 kelvin would be True)")
-        succ = [v for (v, lab) in cfg.succ[t.id] if lab == "t"]
-        for sx in succ:
-            r = cfg.nodes[sx].ast
-            while not isinstance(r, ast.Return) and isinstance(r, ast.Assign) and len(cfg.succ[sx]) == 1:   # a hoisted temporary before the return
-                sx = cfg.succ[sx][0][0]
-                r = cfg.nodes[sx].ast
-            ck.check(isinstance(r, ast.Return) and "self.dimensionality == other.dimensionality" in shape.rnorm(r.value, fi.node), "G-PROV", "PlainQuantity.__eq__|both-zero-answer-is-dimensionality-equality", fi.loc(r),
-                     "two zeros are equal iff the dimensionalities are", f"`{norm(r)}` is not the dimensionality comparison")
+        val = shape.resolve(st.value, fn) if isinstance(st, ast.Return) and st.value is not None else None
+        okd = val is not None and any(isinstance(c, ast.Compare) and (shape.match("self.dimensionality == other.dimensionality", c) is not None or shape.match("other.dimensionality == self.dimensionality", c) is not None)
+                                      for c in ast.walk(val))
+        ck.check(okd, "G-PROV", "PlainQuantity.__eq__|both-zero-answer-is-dimensionality-equality", fi.loc(st),
+                 "two zeros are equal iff the dimensionalities are", f"`{norm(st).splitlines()[0]}` is not the dimensionality comparison")
+    ck.floor("G-TAG", n, 1, "statements of PlainQuantity.__eq__ governed by a zero test of the magnitudes")
